@@ -216,7 +216,7 @@ def teardown(ctx):
 
 
 def plan(tier):
-    m = 1 if tier == 'quick' else 12
+    m = 1 if tier == 'quick' else 40
     return [('jk', 900 * m), ('bs_table', 600 * m), ('bs_seed', 450 * m), ('bs_import', 600 * m), ('derived', 300 * m), ('bs_reject', 150 * m),
             ('history', 120 * m), ('scale', 150 * m)]
 
